@@ -6,7 +6,11 @@ import (
 	"go/constant"
 	"go/token"
 	"go/types"
+	"reflect"
+	"sort"
 	"strings"
+
+	"golang.org/x/tools/go/ssa"
 )
 
 // reflect.Kind values for go/types basic kinds (stdlib knowledge, trusted).
@@ -400,65 +404,120 @@ func (p *Prog) wireSwitch() (*fnRef, *ast.SwitchStmt) {
 
 func ruleSliceWrap(c *Ctx) {
 	p := c.P
-	fn, sw := p.wireSwitch()
-	if sw == nil {
-		c.Oblige("T.slicewrap", false, token.NoPos, "plenc.Plenc.CodecForTypeRegistry", "switch subc.WireType()", "cannot locate the element wire type switch", nil)
+	name := "plenc.Plenc.CodecForTypeRegistry"
+	f := p.ssaFunc(name)
+	cpk := p.pkg("plenccore")
+	if f == nil || cpk == nil {
+		c.Oblige("T.slicewrap", false, token.NoPos, name, "function", "not found", nil)
 		return
 	}
-	info := fn.Pkg.TypesInfo
+	run := func(wt constant.Value) ([]string, bool, bool) { return p.sliceLive(f, wt) }
 	seen := map[string]bool{}
-	for _, st := range sw.Body.List {
-		cc := st.(*ast.CaseClause)
-		var wts []string
-		for _, e := range cc.List {
-			wts = append(wts, constName(info, e))
+	var wts []string
+	for wt := range sliceWrapSpec {
+		wts = append(wts, wt)
+	}
+	sort.Strings(wts)
+	for _, wt := range wts {
+		spec := sliceWrapSpec[wt]
+		kv, okv := p.wireTypeConst(wt)
+		if !okv {
+			c.Oblige("T.slicewrap", false, f.Pos(), name, "element "+wt, "wire type constant not found", nil)
+			continue
 		}
-		if len(cc.List) == 0 {
-			continue // default
-		}
-		// wrappers constructed in this clause
-		var built []string
-		ast.Inspect(cc, func(n ast.Node) bool {
-			if cl, ok := n.(*ast.CompositeLit); ok {
-				if nt := namedOf(info.TypeOf(cl)); nt != nil && inModule(nt.Obj().Pkg()) {
-					if types.Implements(nt, p.CodecIf) || types.Implements(types.NewPointer(nt), p.CodecIf) {
-						built = append(built, nt.Obj().Name())
-					}
+		live, sawKind, sawWT := run(kv)
+		seen[wt] = true
+		ok := sawKind && sawWT
+		for _, l := range live {
+			in := false
+			for _, sp := range spec {
+				if sp == l {
+					in = true
 				}
 			}
-			return true
-		})
-		for _, wt := range wts {
-			seen[wt] = true
-			spec, known := sliceWrapSpec[wt]
-			ok := known
-			for _, b := range built {
-				f := false
-				for _, s := range spec {
-					if s == b {
-						f = true
-					}
-				}
-				if !f {
-					ok = false
-				}
-			}
-			if known && len(spec) > 0 && len(built) == 0 {
+			if !in {
 				ok = false
 			}
-			if known && len(spec) == 0 {
-				// must return an error: no codec constructed and a return with non-nil 2nd result
-				ok = len(built) == 0 && clauseReturnsError(info, cc)
-			}
-			c.Oblige("T.slicewrap", ok, cc.Pos(), fn.Name(), fmt.Sprintf("element %s -> %v", wt, built),
-				fmt.Sprintf("documented layout: element wire type %s is wrapped by %v (packed for scalars, counted wire type 3 for length-delimited elements, slices of counted things rejected)", wt, spec), nil)
 		}
+		if len(spec) > 0 && len(live) == 0 {
+			ok = false
+		}
+		c.Oblige("T.slicewrap", ok, f.Pos(), name, fmt.Sprintf("element %s -> %v", wt, spec),
+			fmt.Sprintf("documented layout: element wire type %s is wrapped by %v (packed for scalars, counted wire type 3 for length-delimited elements, slices of counted things rejected) and by nothing else - a codec chosen for a slice without looking at the element codec's wire type bypasses a codec registered for the element type; with typ.Kind() == Slice and WireType() == %s the codecs whose value reaches a use are %v (kind switch seen: %v, wire type consulted: %v)", wt, spec, wt, live, sawKind, sawWT), nil)
 	}
 	for wt := range p.wireTypesInUse() {
-		c.Oblige("T.slicewrap-exh", seen[wt], sw.Pos(), fn.Name(), "clause for "+wt,
-			"every wire type a codec can report needs a clause in the slice-element switch", nil)
+		c.Oblige("T.slicewrap-exh", seen[wt], f.Pos(), name, "clause for "+wt,
+			"every wire type a codec can report needs a decision for slices of such elements", nil)
 	}
 	c.Floor("T.slicewrap", 5)
+}
+
+
+// sliceLive: FEAS over CodecForTypeRegistry with typ.Kind() forced to
+// reflect.Slice and every Codec.WireType() result forced to wt: the module
+// codec types whose MakeInterface value still reaches a use.
+func (p *Prog) sliceLive(f *ssa.Function, wt constant.Value) (live []string, sawKind, sawWT bool) {
+	var typP *ssa.Parameter
+	for _, prm := range f.Params {
+		if typeName(prm.Type()) == "Type" && typP == nil {
+			typP = prm
+		}
+	}
+	fe := feasibleUnder(f, func(v ssa.Value) (constant.Value, bool) {
+		call, ok := v.(*ssa.Call)
+		if !ok || !call.Common().IsInvoke() {
+			return nil, false
+		}
+		switch call.Common().Method.Name() {
+		case "Kind":
+			if typP != nil && call.Common().Value == ssa.Value(typP) {
+				sawKind = true
+				return constant.MakeInt64(int64(reflect.Slice)), true
+			}
+		case "WireType":
+			if isCodecInvoke(call) {
+				sawWT = true
+				return wt, true
+			}
+		}
+		return nil, false
+	})
+	set := map[string]bool{}
+	for _, b := range f.Blocks {
+		if !fe.reach[b] {
+			continue
+		}
+		for _, in := range b.Instrs {
+			mi, ok := in.(*ssa.MakeInterface)
+			if !ok || typeName(mi.Type()) != "Codec" {
+				continue
+			}
+			nt := namedOf(mi.X.Type())
+			if nt == nil || !inModule(nt.Obj().Pkg()) {
+				continue
+			}
+			if fe.live(mi) {
+				set[nt.Obj().Name()] = true
+			}
+		}
+	}
+	for k := range set {
+		live = append(live, k)
+	}
+	sort.Strings(live)
+	return
+}
+
+// wireTypeConst: the value of a plenccore wire type constant.
+func (p *Prog) wireTypeConst(n string) (constant.Value, bool) {
+	cpk := p.pkg("plenccore")
+	if cpk == nil {
+		return nil, false
+	}
+	if k, ok := cpk.Types.Scope().Lookup(n).(*types.Const); ok {
+		return k.Val(), true
+	}
+	return nil, false
 }
 
 func clauseReturnsError(info *types.Info, cc *ast.CaseClause) bool {
